@@ -45,6 +45,13 @@ HELPER_COMPONENTS = {
 }
 
 CHECKS = {
+    "C14L": {"binary": "simlib", "prop": "C14L", "level": "fault_enumeration", "quick_s": 12, "thorough_s": 120,
+             "rule": "library operations generated from mix(VERIF_SEED, i): a codec-generated valid message and one operation on it - demarshal, copy, marshal, one header edit (set / unset "
+                     "destination, sender, path, interface, member, error name; reply serial; no-reply and auto-start flags) or construction of the whole message through the public API "
+                     "(new + setters + iterator append with nested containers); a fault-free execution counts the allocations n, then the operation is repeated from the same prior state with "
+                     "allocation k failing for EVERY k in 0..n-1; an evaluation is one (message, operation) with all its k",
+             "probes": ["lib_demarshal", "lib_copy", "lib_marshal", "lib_edit", "lib_build"], "components": SIMLIB_COMPONENTS,
+             "assumptions": ["dbus's own allocation-failure counter (_dbus_set_fail_alloc_counter) decides which allocation fails", "the independent codec says what the resulting bytes must be"], "safety_prop": "C14"},
     "C19H": {"binary": "simhelper", "prop": "C19H", "level": "exploration", "quick_s": 10, "thorough_s": 120,
              "rule": "helper invocations generated from mix(VERIF_SEED, i): a valid or malformed name argument, 0-4 service files (complete / missing Name, Exec or User / other section / garbage / Name "
                      "of another service) in two service directories, Exec lines with plain, quoted and unterminated-quote words, optionally an allocation failure at a chosen allocation; the "
@@ -93,7 +100,7 @@ CHECKS = {
                   "operation, then the whole plan is re-executed n times with allocation k = 0..n-1 of that operation failing (exhaustive in k, sampled in history and operation), and again with "
                   "a second failure gap allocations after the first (hook H5): every (k, gap <= 10) for operations of at most 14 allocations, (even k, gap in {0,3,9}) for operations up to 120; an "
                   "evaluation is one (history, operation, k) execution; distinct = distinct trace hash; non-trivial = the injected failure fired and the outcome was compared with both admissible worlds",
-                  probes=["oom_outcome_complete", "oom_outcome_nomemory", "oom_retried", "h2_retry_after_oom", "oom_pair_runs", "oom_second_fired"], safety_prop="C14", level="fault_enumeration"), max_runs=None),
+                  probes=["oom_outcome_complete", "oom_outcome_nomemory", "oom_retried", "h2_retry_after_oom", "oom_pair_runs", "oom_second_fired"], safety_prop="C14", level="fault_enumeration"), max_runs=None, companion="C14L"),
 }
 
 # ----------------------------------------------------------------------------- MANIFEST texts
@@ -162,9 +169,13 @@ MANIFEST_TEXT = {
                "allocations (k, then gap allocations later; guarded hook H5): all (k, gap <= 10) for operations of at most 14 allocations, a sample for longer ones. After each, with "
                "injection off, exactly two worlds are admissible and compared in full against the model: the complete effect (every signal, reply, state change), or nothing but a "
                "NoMemory error to the requester; then the operation is retried and must end in the fault-free result; rules and names per connection are also counted white-box; "
-               "dbus_malloc blocks and descriptors must be back at baseline after shutdown. Library-side operations (message build/copy/edit, rule and config parsing) are not yet covered.",
+               "dbus_malloc blocks and descriptors must be back at baseline after shutdown. The library clause is decided by a companion enumeration in simlib (C14L, run first on 20% of "
+               "the budget, coverage folded into this evidence file): a codec-generated message and one operation - demarshal, copy, marshal, a header edit, or construction of the whole "
+               "message through the public API - repeated with allocation k failing for every k; the operation must report out-of-memory or yield exactly the bytes the codec "
+               "prescribes, a prior message must be byte-identical afterwards (construction excepted: the documentation says a half-built message is to be discarded), nothing may "
+               "leak, and the retry must succeed. Match-rule parsing is reached through AddMatch; configuration-file parsing under allocation failure is not covered.",
                "DESIGN.md section 4 C14", "deterministic re-execution with exhaustive enumeration of the failing allocation index per sampled (history, operation)",
-               note=_SIMBUS_NOTE + " Exhaustive in k for each sample; histories and operations are sampled. Six genuine OOM-atomicity defects of the daemon are listed in known_findings.json and reported as KNOWN-FINDING."),
+               note=_SIMBUS_NOTE + " Exhaustive in k for each sample; histories and operations are sampled. Seven genuine OOM-atomicity defects of the daemon are listed in known_findings.json and reported as KNOWN-FINDING; two library defects found by the companion were repaired (b09978c, 45a3606)."),
     "C01": _mt("Seeded search over byte streams through the real connection loader (DBusServer + accepted DBusConnection, the path the property names first): 0-6 structurally generated "
                "valid messages of every type / header-field / nesting shape in both byte orders, targeted boundary shapes, optionally one single-site corruption (structural: serial 0, "
                "bad version, duplicate / wrong-typed / missing / zero-code field, bad path / interface / member / bus name, bad UTF-8, boolean 2 alone and inside arrays, body-signature "
